@@ -221,7 +221,13 @@ class PIT(DNAS):
                 if isinstance(layer, PITModule) and hasattr(layer, 'following_bn_args'):
                     layer.following_bn_args = None  # type: ignore
 
-        mod, _, _ = convert(self.seed, self._input_example, 'export')
+        # conversion forces `eval()` on the inner model: restore its training status afterwards
+        training_status = [(m, m.training) for m in self.seed.modules()]
+        try:
+            mod, _, _ = convert(self.seed, self._input_example, 'export')
+        finally:
+            for m, status in training_status:
+                m.training = status
 
         return mod
 
